@@ -60,7 +60,7 @@ static int kind[NLINES + 1];
 static int cur_line;         // token level: line of the directive whose command word was delivered last
 static int protocol_error;
 static bool survived[NLINES + 1], defined_at[NLINES + 1], error_at[NLINES + 1];
-static int cur_c;            // character level: the pending character between files
+static int files_done;
 static int line_base;        // character level: line number (0-based) of the first line of the current file
 
 #if !CHARLEVEL
@@ -143,11 +143,13 @@ void CPPPreprocessor::handle_error_directive(const std::string &args, const YYLT
 struct Frame { bool parent_active, taken, active; };
 
 #if CHARLEVEL
-// All files of this residue class are laid out one after the other in ONE stream (the stream model has a small pool of
-// buffers), each terminated by a sentinel line "Z": the driver stops there, the end of the stream is never read.
+// One stream per file (the stream model has a pool of 6 buffers, so a residue class holds at most 6 files; buffers
+// stay below CBMC's 64-element limit for per-element constant propagation where possible).  Every file ends with a
+// sentinel line "Z": the driver stops there, the end of the stream is never read.
 #define LMAX 24
-#define MAXFILES 64
-static char text[MAXFILES * (NLINES * LMAX + 3) + 4];
+#define MAXFILES 6
+static char textbuf[MAXFILES][NLINES * LMAX + 4];
+static char *text;
 static int put(int n, const char *s) { while (*s) text[n++] = *s++; return n; }
 static int build_text(int n) {
   for (int i = 0; i < NLINES; i++) {
@@ -203,8 +205,16 @@ static void __attribute__((noinline)) run_file(CPPPreprocessor *pp) {
 #endif
   bool consumed = false;
 #if CHARLEVEL
-  int c = cur_c;
-  line_base = pp->get_line_number() - 1;
+  text = textbuf[files_done < MAXFILES ? files_done : MAXFILES - 1];
+  files_done++;
+  int n = build_text(0);
+  CPPPreprocessor::InputFile *in = new CPPPreprocessor::InputFile;
+  in->_in = vs_istream_bytes(text, (unsigned)n);
+  pp->_infile = in;
+  pp->_start_of_line = true;
+  pp->_unget = '\0';
+  int c = pp->skip_whitespace(pp->get());
+  line_base = 0;
   for (int step = 0; step < 2 * NLINES + 2; step++) {
     if (c == 'Z') { consumed = true; break; }
     if (c == EOF) break;
@@ -219,7 +229,6 @@ static void __attribute__((noinline)) run_file(CPPPreprocessor *pp) {
       break;
     }
   }
-  if (consumed) cur_c = pp->skip_whitespace(pp->get());      // first character of the next file
 #else
   rd_line = 0; rd_phase = 0;
   int c = pp->get();
@@ -264,18 +273,6 @@ static void __attribute__((noinline)) run_file(CPPPreprocessor *pp) {
 extern "C" void harness_c09_cond() {
   CPPPreprocessor *pp = new CPPPreprocessor;
   int leaves_run = 0;
-#if CHARLEVEL
-  int n = 0;
-  for (int f = PART; f < NFILES; f += NPARTS) {
-    for (int i = 0; i < NLINES; i++) kind[i] = FILES[f][i];
-    n = build_text(n);
-  }
-  CPPPreprocessor::InputFile *in = new CPPPreprocessor::InputFile;
-  in->_in = vs_istream_bytes(text, (unsigned)n);
-  pp->_infile = in;
-  pp->_start_of_line = true;
-  cur_c = pp->skip_whitespace(pp->get());
-#endif
   for (int f = PART; f < NFILES; f += NPARTS) {
     for (int i = 0; i < NLINES; i++) kind[i] = FILES[f][i];
     run_file(pp);
